@@ -112,10 +112,43 @@ def new_spec(desc):
     return spec
 
 
+def apply_config(spec, old, new):
+    """re-configure an existing object from configuration old to new (keys unit, sampling; missing = library default);
+    only what differs is touched, like an application that changes one setting"""
+    ou, nu = old.get('unit') or 's', new.get('unit') or 's'
+    osamp, nsamp = list(old.get('sampling') or [1, 's', 0.1]), list(new.get('sampling') or [1, 's', 0.1])
+    if ou != nu:
+        spec.unit = nu
+    if osamp != nsamp:
+        api('set_sampling_period', spec.set_sampling_period, nsamp[0], nsamp[1], nsamp[2])
+
+
 def build(desc):
-    """construct, declare, parse and (if asked) pastify"""
-    spec = new_spec(desc)
+    """construct, declare, parse and (if asked) pastify.
+    desc['prior'] (a fault, not a different specification): the object has a history before it reaches the configuration of
+    desc - it was configured with prior['unit'] / prior['sampling'], possibly reset() early (prior['early_reset']) and,
+    offline, used once on prior['data']; then it is re-configured. It must behave like a fresh object afterwards."""
+    prior = desc.get('prior')
+    if not prior:
+        spec = new_spec(desc)
+        api('parse', spec.parse)
+        if desc.get('pastify'):
+            api('pastify', spec.pastify)
+        return spec
+    d0 = dict((k, v) for k, v in desc.items() if k not in ('prior', 'unit', 'sampling', 'sampling_omit_unit', 'sampling_first'))
+    for k in ('unit', 'sampling'):
+        if prior.get(k):
+            d0[k] = prior[k]
+    spec = new_spec(d0)
     api('parse', spec.parse)
+    if prior.get('early_reset'):
+        api('reset', spec.reset)
+    if prior.get('data') is not None:
+        try:
+            dt_evaluate(spec, prior['times'], prior['data'])
+        except (ApiCrash, NumericOverflow):
+            pass                      # the earlier use may legitimately fail (bounds not multiples of that period, ...)
+    apply_config(spec, prior, desc)
     if desc.get('pastify'):
         api('pastify', spec.pastify)
     return spec
@@ -163,6 +196,9 @@ def ct_update(spec, batches, order=None):
 # ---------------------------------------------------------------------------------------------------
 # numeric comparison policy (DESIGN 3.6)
 
+ABS_FLOOR = 1e-13
+
+
 def num_eq(a, b, rel=1e-9):
     try:
         fa = float(a)
@@ -175,7 +211,9 @@ def num_eq(a, b, rel=1e-9):
         return True
     if fa in (INF, -INF) or fb in (INF, -INF):
         return False
-    return abs(fa - fb) <= rel * max(1.0, abs(fa), abs(fb))
+    # relative tolerance, with an absolute floor far below the smallest differences the generators produce on purpose
+    # (nano-scale samples, constants that differ in the 10th-12th decimal)
+    return abs(fa - fb) <= max(rel * max(abs(fa), abs(fb)), ABS_FLOOR)
 
 
 def list_eq(xs, ys, rel=1e-9):
